@@ -1227,3 +1227,39 @@ benign('benign-c08-link-clone', 'C08', CTL, """                from_pid: mem::ta
             }),
 
             Some(ControlMessageType::Send)""")
+benign('benign-c04-verify-if-else', 'C04', 'crates/edp_client/src/state_machine.rs', """        if !ack.verify(our_challenge, &self.cookie) {
+            return Err(Error::AuthenticationFailed);
+        }
+
+        self.state = ConnectionState::Connected;
+        Ok(())""", """        let verified = ack.verify(our_challenge, &self.cookie);
+        if verified {
+            self.state = ConnectionState::Connected;
+            Ok(())
+        } else {
+            Err(Error::AuthenticationFailed)
+        }""")
+benign('benign-c07-verify-if-else', 'C07', 'crates/edp_client/src/state_machine.rs', """        if !ack.verify(our_challenge, &self.cookie) {
+            return Err(Error::AuthenticationFailed);
+        }
+
+        self.state = ConnectionState::Connected;
+        Ok(())""", """        let verified = ack.verify(our_challenge, &self.cookie);
+        if verified {
+            self.state = ConnectionState::Connected;
+            Ok(())
+        } else {
+            Err(Error::AuthenticationFailed)
+        }""")
+benign('benign-c04-verify-match', 'C04', 'crates/edp_client/src/state_machine.rs', """        if !ack.verify(our_challenge, &self.cookie) {
+            return Err(Error::AuthenticationFailed);
+        }
+
+        self.state = ConnectionState::Connected;
+        Ok(())""", """        match ack.verify(our_challenge, &self.cookie) {
+            true => {
+                self.state = ConnectionState::Connected;
+                Ok(())
+            }
+            false => Err(Error::AuthenticationFailed),
+        }""")
